@@ -746,6 +746,36 @@ fn c07_pkg_length_framing_at_boundaries() {
         }
     }
 }
+/// C06: the expression operators -- opcode from the ACPI AML opcode table (20.3), operands in the
+/// grammar's order (binary: Operand Operand Target; LGreaterEqual := LNot LLess, LLessEqual := LNot LGreater,
+/// LNotEqual := LNot LEqual)
+#[test]
+fn c06_operator_opcodes() {
+    let (a, b, t) = (Arg(1), Local(2), Local(7));
+    let (ab, bb, tb) = (vec![0x69u8], vec![0x62u8], vec![0x67u8]);
+    macro_rules! bin { ($ty:ident, $op:expr) => {{
+        let want: Vec<u8> = [&[$op][..], &ab[..], &bb[..], &tb[..]].concat();
+        assert_eq!(ser(&$ty::new(&t, &a, &b)), want, concat!(stringify!($ty), ": opcode, Operand, Operand, Target"));
+    }}; }
+    bin!(Add, 0x72); bin!(Concat, 0x73); bin!(Subtract, 0x74); bin!(Multiply, 0x77); bin!(ShiftLeft, 0x79); bin!(ShiftRight, 0x7a);
+    bin!(And, 0x7b); bin!(Nand, 0x7c); bin!(Or, 0x7d); bin!(Nor, 0x7e); bin!(Xor, 0x7f); bin!(ConcatRes, 0x84); bin!(Mod, 0x85);
+    bin!(Index, 0x88); bin!(ToString, 0x9c); bin!(CreateDWordField, 0x8a); bin!(CreateQWordField, 0x8f);
+    macro_rules! cmp { ($ty:ident, $ops:expr) => {{
+        let want: Vec<u8> = [&$ops[..], &ab[..], &bb[..]].concat();
+        assert_eq!(ser(&$ty::new(&a, &b)), want, concat!(stringify!($ty), ": opcode(s), left operand, right operand"));
+    }}; }
+    cmp!(Equal, [0x93u8]); cmp!(LessThan, [0x95u8]); cmp!(GreaterThan, [0x94u8]);
+    cmp!(NotEqual, [0x92u8, 0x93]); cmp!(GreaterEqual, [0x92u8, 0x95]); cmp!(LessEqual, [0x92u8, 0x94]);
+    macro_rules! un { ($ty:ident, $op:expr) => {{
+        assert_eq!(ser(&$ty::new(&a)), [&[$op][..], &ab[..]].concat(), concat!(stringify!($ty), ": opcode, operand"));
+    }}; }
+    un!(ObjectType, 0x8e); un!(SizeOf, 0x87); un!(Return, 0xa4); un!(DeRefOf, 0x83);
+    macro_rules! conv { ($ty:ident, $op:expr) => {{
+        assert_eq!(ser(&$ty::new(&t, &a)), [&[$op][..], &ab[..], &tb[..]].concat(), concat!(stringify!($ty), ": opcode, Operand, Target"));
+    }}; }
+    conv!(ToBuffer, 0x96); conv!(ToInteger, 0x99);
+    assert_eq!(ser(&Store::new(&t, &a)), [&[0x70u8][..], &ab[..], &tb[..]].concat(), "Store: opcode, source, destination");
+}
 /// C06/C07: every length-delimited container, with name paths of 1..4 segments (rooted or not) and
 /// children that reach the sink through each of its entry points (byte, word, dword, qword, vec):
 /// the PkgLength covers exactly the object, the name is the reference NameString, and the children
@@ -1090,6 +1120,18 @@ fn c13_generic_table_vector_model() {
         let before = t.as_slice().to_vec();
         let n = t.len();
         assert!(catch_unwind(AssertUnwindSafe(|| { let mut c = Sdt::new(*b"TEST", 40, 1, *b"FOOBAR", *b"DECAFCOF", 7); c.write_u32(37, 1); c })).is_err(), "write past the end accepted");
+        // a refused write, whatever its width, leaves every byte as it was
+        for back in 1..=7usize {
+            let keep = t.as_slice().to_vec();
+            let off = t.len() - back;
+            let r = catch_unwind(AssertUnwindSafe(|| { t.write_u64(off, 0x1122_3344_5566_7788); }));
+            assert!(r.is_err(), "write_u64 at {} of a {}-byte table was accepted", off, t.len());
+            assert_eq!(t.as_slice(), &keep[..], "refused write_u64 at {} (table of {} bytes) modified the table", off, keep.len());
+            if back <= 3 {
+                let r = catch_unwind(AssertUnwindSafe(|| { t.write_u32(off, 0xaabb_ccdd); }));
+                assert!(r.is_err()); assert_eq!(t.as_slice(), &keep[..], "refused write_u32 at {} modified the table", off);
+            }
+        }
         assert_eq!(t.as_slice(), &before[..]); assert_eq!(t.len(), n); let _ = step;
     }
 }
@@ -1363,6 +1405,20 @@ fn c01_history_rqsc() {
     for i in 0..20u32 {
         let mut c = rqsc::QoSController::new(rqsc::ControllerType::Capacity, gas::GAS::new(gas::AddressSpace::SystemMemory, 64, 0, gas::AccessSize::QwordAccess, 0x1000), i, i, 1);
         for k in 0..(i % 3) { c.add_resource(rqsc::ResourceStructure::new(rqsc::ResourceType::Cache, 0, rqsc::ResourceID::Cache(rqsc::CacheResource::new(k)))); }
+        // every kind of resource ID, including short and long vendor-specific blobs
+        let rid = match i % 5 {
+            0 => rqsc::ResourceID::ACPIDevice(rqsc::ACPIDeviceResource::new(u64::from_le_bytes(*b"ACPI0004"), i)),
+            1 => rqsc::ResourceID::VendorSpecific(0x80, vec![0xab; (i as usize * 3) % 20]),
+            2 => rqsc::ResourceID::VendorSpecific(0x81, vec![]),
+            3 => rqsc::ResourceID::MemoryAffinityStructure(rqsc::MemoryAffinityStructureResource::new(i, 0x1122_3344_5566_7788)),
+            _ => rqsc::ResourceID::VendorSpecific(0x82, vec![1, 2, 3, 4, 5, 6, 7, 8, 9, 10, 11, 12, 13, 14, 15, 16]),
+        };
+        let rs = rqsc::ResourceStructure::new(rqsc::ResourceType::Memory, i as u16, rid);
+        let rb = ser(&rs);
+        assert_eq!(le16_at(&rb, 2) as usize, rb.len(), "RQSC resource structure (kind {}): Length field vs bytes emitted", i % 5);
+        c.add_resource(rs);
+        let cb = ser(&c);
+        assert_eq!(le16_at(&cb, 2) as usize, cb.len(), "RQSC controller: Length field vs bytes emitted");
         q.add_controller(c);
         check_table("RQSC", &ser(&q));
     }
